@@ -204,6 +204,60 @@ IdsOfKind(block, kinds) ==
                  [] OTHER -> {})
            : i \in 1..Len(block)}
 
+\* bindings made inside a handler that names its exception (`except E as v:` and everything its block binds): what a
+\* use of v after the try statement may wrongly still see, v being deleted when the handler is left
+AllBindKinds == NameDefKinds \cup {"import", "exas"}
+RECURSIVE ExasDefs(_)
+ExasDefs(block) ==
+    UNION {LET s == block[i]
+           IN CASE s.k \in IfKinds \cup LoopKinds -> ExasDefs(s.body) \cup ExasDefs(s.orelse)
+                [] s.k \in WithKinds -> ExasDefs(s.body)
+                [] s.k = "match" -> UNION {ExasDefs(s.cases[j].body) : j \in 1..Len(s.cases)}
+                [] s.k = "try" -> ExasDefs(s.body) \cup ExasDefs(s.orelse) \cup ExasDefs(s.final)
+                                  \cup UNION {LET h == s.handlers[j]
+                                              IN IF h # << >> /\ h[1].k = "exas" THEN IdsOfKind(h, AllBindKinds) ELSE ExasDefs(h)
+                                              : j \in 1..Len(s.handlers)}
+                [] OTHER -> {}
+           : i \in 1..Len(block)}
+
+\* Dead tails.  pyanalyze deliberately analyses a statement that follows return / raise / break / continue as if control
+\* fell through; the generator never places a statement there (AfterJump).  The same holds after a COMPOUND statement that
+\* cannot complete normally (`try: return` / `finally: ...`, an if whose branches both leave, `while True:` without break):
+\* the slices added later leave such programs out (invariant InvAllLive, emission filters).
+RECURSIVE CannotComplete(_), BlockCannotComplete(_), HasOwnBreak(_)
+HasOwnBreak(block) ==       \* a break that leaves the loop whose body `block` is
+    \E i \in 1..Len(block) :
+        LET s == block[i]
+        IN \/ s.k = "break"
+           \/ s.k \in IfKinds /\ (HasOwnBreak(s.body) \/ HasOwnBreak(s.orelse))
+           \/ s.k \in LoopKinds /\ HasOwnBreak(s.orelse)
+           \/ s.k \in WithKinds /\ HasOwnBreak(s.body)
+           \/ s.k = "match" /\ \E j \in 1..Len(s.cases) : HasOwnBreak(s.cases[j].body)
+           \/ s.k = "try" /\ (HasOwnBreak(s.body) \/ HasOwnBreak(s.orelse) \/ HasOwnBreak(s.final)
+                              \/ \E j \in 1..Len(s.handlers) : HasOwnBreak(s.handlers[j]))
+BlockCannotComplete(block) == \E i \in 1..Len(block) : CannotComplete(block[i])
+CannotComplete(s) ==
+    CASE s.k \in {"return", "raise", "break", "continue"} -> TRUE
+      [] s.k \in IfKinds -> BlockCannotComplete(s.body) /\ BlockCannotComplete(s.orelse)
+      [] s.k \in WithKinds -> ~s.supp /\ BlockCannotComplete(s.body)
+      [] s.k = "while" -> s.true /\ ~HasOwnBreak(s.body)
+      [] s.k = "try" -> \/ BlockCannotComplete(s.final)
+                        \/ /\ BlockCannotComplete(s.body) \/ BlockCannotComplete(s.orelse)
+                           /\ \A j \in 1..Len(s.handlers) : BlockCannotComplete(s.handlers[j])
+      [] s.k = "match" -> /\ \E j \in 1..Len(s.cases) : s.cases[j].pat \in {"cap", "wild"} /\ ~s.cases[j].guard
+                          /\ \A j \in 1..Len(s.cases) : BlockCannotComplete(s.cases[j].body)
+      [] OTHER -> FALSE
+RECURSIVE DeadTail(_)
+DeadTail(block) ==
+    \E i \in 1..Len(block) :
+        LET s == block[i]
+        IN \/ i < Len(block) /\ CannotComplete(s)
+           \/ s.k \in IfKinds \cup LoopKinds /\ (DeadTail(s.body) \/ DeadTail(s.orelse))
+           \/ s.k \in WithKinds /\ DeadTail(s.body)
+           \/ s.k = "match" /\ \E j \in 1..Len(s.cases) : DeadTail(s.cases[j].body)
+           \/ s.k = "try" /\ (DeadTail(s.body) \/ DeadTail(s.orelse) \/ DeadTail(s.final)
+                              \/ \E j \in 1..Len(s.handlers) : DeadTail(s.handlers[j]))
+
 RECURSIVE GuardedCapture(_)
 GuardedCapture(block) ==
     \E i \in 1..Len(block) :
@@ -286,11 +340,12 @@ UseVerdict2(prog, rs, rl, u, reported) ==
        ELSE IF GuardedCapture(prog) THEN "dev:match-capture-dropped-when-guard-fails"
        \* (g) `except E as v:` binds v with the handler as definition node and never unbinds it: after the try statement
        \*     the handler's binding is considered live although CPython has deleted the name on every way out
-       ELSE IF HasKind(prog, {"exas"}) /\ missing \subseteq {0} /\ extra \subseteq IdsOfKind(prog, {"exas"})
+       ELSE IF HasKind(prog, {"exas"}) /\ missing \subseteq {0} /\ extra \subseteq ExasDefs(prog)
             THEN "dev:except-name-outlives-handler"
        \* (h) a walrus inside a comprehension is recorded as an unconditional assignment of the enclosing function,
        \*     although the comprehension may iterate zero times
-       ELSE IF HasKind(prog, {"cwal"}) /\ extra = {} THEN "dev:comprehension-walrus-assumed-executed"
+       \*     (in excess only what (i) explains, when the program also reads from an inner scope)
+       ELSE IF HasKind(prog, {"cwal"}) /\ (extra = {} \/ HasKind(prog, {"cuse"})) THEN "dev:comprehension-walrus-assumed-executed"
        \* (i) a read from a comprehension / lambda / class body is looked up in the enclosing FunctionScope once more
        \*     while the function is CHECKED, when name_to_current_definition_nodes still holds what the end of the
        \*     collecting visit left there: assignments that only follow the read are considered able to reach it
@@ -361,6 +416,7 @@ All_Holds(prog) ==
     IN /\ \A u \in UsesOf(prog) : UseVerdict2(prog, rs, rl, u, ReportedFrom(F.usage, u)) # "viol"
        /\ \A dv \in NameDefs(prog) : DefVerdict2(prog, rs, rl, dv[1], ImplReportedUnused(prog, F, dv[1], dv[2])) # "viol"
 InvAll == done => All_Holds(Prog)
+InvAllLive == (done /\ ~DeadTail(Prog)) => All_Holds(Prog)
 InvUnused == done => Unused_Holds(Prog)
 InvUnusedStrict == done => Unused_HoldsStrict(Prog)
 InvC09 == done => C09_Holds(Prog)
